@@ -85,7 +85,8 @@ def sprite_extraction(F, S):
         defs = c05.alias_defs(g)
         # the destination palette is the local the function returns
         rv = [g.term(r["value"]) for r in returns(g)]
-        pal = [k for k in defs if k in rv]
+        # (identity, not value: the destination is of course written by the copy)
+        pal = [v for v in rv if v[0] == "var" and any(x["k"] == "DeclStmt" and any(("var", d.get("n"), d.get("d")) == v for d in x.get("decls", [])) for x in g.nodes)]
         adefs = {k: v for k, v in defs.items() if k not in pal}
         a = [c05.resolve(g.term(x), adefs) for x in cp[0]["args"]]
         dst_n = None
